@@ -54,7 +54,7 @@ def _oracle_sets(ns, nr, pres_r, pres_p, kind):
     return minimal
 
 
-def h_siphons_graph(E, ns, nr, unimol=False):
+def h_siphons_graph(E, ns, nr, unimol=False, sorted_rx=False):
     """find_siphons / find_traps on a bipartite DiGraph handed in directly, symbolic arc weights.
     unimol=True: every reaction has at most one reactant species and at most one product species (assumed)."""
     import networkx as nx
@@ -81,6 +81,14 @@ def h_siphons_graph(E, ns, nr, unimol=False):
         for j in range(nr):
             E.assume(COUNT([pres_r[j, i] for i in range(ns)]) <= 1)
             E.assume(COUNT([pres_p[j, i] for i in range(ns)]) <= 1)
+        if sorted_rx:
+            # reactions are interchangeable columns: one representative per ordering (reactant index, product index)
+            from symx import ITE, SUM
+
+            code = [SUM([ITE(pres_r[j, i], (i + 1) * (ns + 1), 0) for i in range(ns)])
+                    + SUM([ITE(pres_p[j, i], i + 1, 0) for i in range(ns)]) for j in range(nr)]
+            for j in range(nr - 1):
+                E.assume(code[j] <= code[j + 1])
     sip = find_siphons(G)
     trp = find_traps(G)
     _judge_sets(E, sp, nr, pres_r, pres_p, sip, trp)
@@ -260,6 +268,7 @@ def shards(tier, seed):
         sh += [
             dict(h="siphons_graph", params=dict(ns=3, nr=3)),
             dict(h="siphons_graph", params=dict(ns=4, nr=2)),
+            dict(h="siphons_graph", params=dict(ns=4, nr=3, unimol=True, sorted_rx=True)),
             dict(h="siphons_hg", params=dict(ns=3, nr=3)),
             dict(h="fire", params=dict(npl=3)),
             dict(h="realizable", params=dict(ns=3, nr=3, cmax=1, fmax=2)),
